@@ -45,6 +45,7 @@ func (vc *VC) reset() {
 	vc.Errors = nil
 	vc.nowTerms = nil
 	vc.callSyms = map[string][]Term{}
+	vc.callArgs = map[string][]cval{}
 	vc.callSymTypes = map[string][]CT{}
 	vc.ifaceUsed = map[string]types.Type{}
 	vc.frameAddrs = nil
@@ -133,7 +134,10 @@ func (vc *VC) generateOnce() {
 	if ct != nil {
 		env = vc.callEnv(fn, fn.Signature, ct, params, st, nil, "requires of "+ct.Key)
 		for i, f := range fn.FreeVars {
-			env.names[f.Name()] = cval{fvs[i], vc.ctOf(f.Type())}
+			// a free variable is the address of the captured variable: the name denotes its value
+			if et, ok := typesPointerElem(f.Type()); ok {
+				env.names[f.Name()] = cval{vc.loadT(st, fvs[i], et), vc.ctOf(et)}
+			}
 		}
 		for _, cl := range ct.Requires {
 			vc.sc.Assume("true", env.boolTerm(cl.Expr))
@@ -169,7 +173,9 @@ func (vc *VC) generateOnce() {
 	if out != nil && ct != nil && !ct.Trusted {
 		penv := vc.callEnv(fn, fn.Signature, ct, params, out, vc.entry, "ensures of "+ct.Key)
 		for i, f := range fn.FreeVars {
-			penv.names[f.Name()] = cval{fvs[i], vc.ctOf(f.Type())}
+			if et, ok := typesPointerElem(f.Type()); ok {
+				penv.names[f.Name()] = cval{vc.loadT(out, fvs[i], et), vc.ctOf(et)}
+			}
 		}
 		vc.bindResults(penv, fn.Signature, res)
 		for _, cl := range ct.Ensures {
